@@ -9,6 +9,7 @@ call (receiver, its path, payload with old and new contents), which memoised fac
 step observes) the four derived facts of every node."""
 import contextlib, inspect, time
 from harness.props import symcore_driver as D
+from harness.props import c01 as C01
 from harness.translators import notify_src
 
 REBINDX, QUERY = 50, 60
@@ -32,7 +33,7 @@ META = dict(
                 'nothing is delivered; the notification names exactly the containers the call wrote, and with notification enabled a call that wrote and did not raise has notified; receivers are notified children first (on every int key and every string key that does not look like a number, where the KeyPath comparison is an order); every operation resets the memoised facts of every '
                 'node whose contents it changes, queries answer with the fact of the current contents, hence after any history every node reports what a computation from scratch gives. '
                 'Tie: step-level correspondence of event logs (receiver, path, payload with old and new contents), of which memo attributes every live node holds, and of the observed facts, '
-                'on a systematic sweep (every mutator x depth x subscriber placement x notification on/off) and generated histories; direct oracles for the event contract and for freshness '
+                'on a systematic sweep (every mutator x depth x subscriber placement x notification on/off), batch-shape and re-seat-then-write sweeps and generated histories; direct oracles for the event contract (incl. every reported location leads to the new value; true parent / path of every node after every step) and for freshness '
                 'against a copy rebuilt from JSON, also on typed trees with required/default fields, MISSING_VALUE and pg.oneof.'),
     level_note=('Trusted: Coq kernel; extraction cross-checked against vm_compute; the SymCore driver and the C09 observers (test classes, callbacks, reading the memo attributes). '
                 'Modelled, not verified: the Python code (tied by the correspondence). '
@@ -373,6 +374,78 @@ def batch_sweep_cases(stride=1):
             out.append(('batch-overlap:%s/P%d/%s/%s' % (root_kind, fi, aname, ''.join(map(str, perm))), case9([t], (NS, NOP()), (NS, [D.REBIND, pos(0), pvs]))))
   return out
 
+def reseat_then_write_cases(full=True):
+  """two-phase histories on ONE list of symbolic elements (at the root, below a Dict, below an Object; list, elements and ancestors observe):
+  phase 1 re-seats the elements -- a batch that deletes two or three of them by MISSING_VALUE (every subset; as one rebind on the list, as one
+  rebind from the root, with notify_parents=False, or with the first deletion made silently -- skip_notification / disabled scope -- so that ONE
+  later notification drops several placeholders), batches of Insertions, mixed batches, del / pop / insert / reverse; phase 2 writes inside
+  EVERY element of the list afterwards, at depth 1 and at depth 2, one call each.  The event log of every step is compared with the model;
+  the location and path-integrity clauses of the oracle apply.  (full=False, the quick tier: below a Dict / an Object only the two-element
+  deletions, and without the reversed-order and all-skipped variants.)"""
+  import itertools
+  N = 4
+  elem = lambda i: ('cb', {'x': i, 's': {'y': i}})
+  newe = lambda i: val(('cb', {'x': 50 + i, 's': {'y': 50 + i}}))
+  MISS = lambda: val('MISSING')
+  out = []
+  for root_kind in ('list', 'dict', 'obj'):
+    L = ('cb', [elem(i) for i in range(N)])
+    if root_kind == 'list':
+      t, LP = L, []
+    elif root_kind == 'dict':
+      t, LP = ('cb', {'l': L, 'n': 0}), ['l']
+    else:
+      t, LP = ('obj', 0, {'x': L, 'y': 1}), ['x']
+    lp = pos(0, *LP)
+    kpath = lambda *ks: [ek(x) for x in list(LP) + list(ks)]
+    phases = []       # (name, steps of phase 1, raw list afterwards: labels, None = a placeholder that is still there)
+    subsets = [c for m in ((2, 3) if full or root_kind == 'list' else (2,)) for c in itertools.combinations(range(N), m)]
+    for S in subsets:
+      nm = ''.join(map(str, S))
+      left = [i for i in range(N) if i not in S]
+      dels = [[[ek(i)], MISS()] for i in S]
+      phases.append(('del%s/batch' % nm, [(NS, [D.REBIND, lp, dels])], left))
+      if full:
+        phases.append(('del%s/batch-reversed' % nm, [(NS, [D.REBIND, lp, dels[::-1]])], left))
+      if LP:
+        phases.append(('del%s/from-root' % nm, [(NS, [D.REBIND, pos(0), [[kpath(i), MISS()] for i in S]])], left))
+      phases.append(('del%s/notify-parents-false' % nm, [(NS, [REBINDX, lp, dels, [], 0])], left))
+      phases.append(('del%s/skip-then-notified' % nm, [(NS, [REBINDX, lp, dels[:-1], [1], 1]), (NS, [D.REBIND, lp, dels[-1:]])], left))
+      phases.append(('del%s/off-then-notified' % nm, [(OFF, [D.REBIND, lp, dels[:-1]]), (NS, [D.REBIND, lp, dels[-1:]])], left))
+      # every deletion silent: the placeholders are dropped by the notification of the first write of phase 2
+      phases.append(('del%s/all-off' % nm, [(OFF, [D.REBIND, lp, dels])], [None if i in S else i for i in range(N)]))
+      if full or root_kind == 'list':
+        phases.append(('del%s/all-skipped' % nm, [(NS, [REBINDX, lp, dels, [1], 1])], [None if i in S else i for i in range(N)]))
+    phases.append(('ins02/batch', [(NS, [D.REBIND, lp, [[[ek(0)], [2, newe(0)]], [[ek(2)], [2, newe(1)]]]])], list(range(N + 2))))
+    phases.append(('del0-ins2/batch', [(NS, [D.REBIND, lp, [[[ek(0)], MISS()], [[ek(2)], [2, newe(1)]]]])], list(range(N))))
+    phases.append(('ins0-del2/batch', [(NS, [D.REBIND, lp, [[[ek(0)], [2, newe(0)]], [[ek(2)], MISS()]]])], list(range(N))))
+    phases.append(('del1', [(NS, [D.LDEL, lp, 1])], list(range(N - 1))))
+    phases.append(('pop0', [(NS, [D.LPOP, lp, [0]])], list(range(N - 1))))
+    phases.append(('insert1', [(NS, [D.LINSERT, lp, 1, newe(0)])], list(range(N + 1))))
+    phases.append(('reverse', [(NS, [D.LREVERSE, lp])], list(range(N))))
+    phases.append(('del1-off-then-del1', [(OFF, [D.LDEL, lp, 1]), (NS, [D.LDEL, lp, 1])], list(range(N - 2))))
+    for name, p1, raw in phases:
+      steps = [(NS, NOP())] + list(p1)
+      # phase 2: a write inside every element; the first notified one drops the placeholders that are still there
+      raw = list(raw)
+      for depth in (1, 2):
+        j = 0
+        while j < len(raw):
+          if raw[j] is None:
+            j += 1
+            continue
+          if depth == 1:
+            steps.append((NS, [D.DSET, pos(0, *(list(LP) + [j])), 0, ek('x'), val(100 + j)]))
+          else:
+            steps.append((NS, [D.DSET, pos(0, *(list(LP) + [j, 's'])), 0, ek('y'), val(200 + j)]))
+          if None in raw:
+            before = len([r for r in raw[:j] if r is None])
+            raw = [r for r in raw if r is not None]
+            j -= before
+          j += 1
+      out.append(('reseat:%s/%s' % (root_kind, name), case9([t], *steps)))
+  return out
+
 # ---- the direct oracles (the property text on the live objects) ------------------------------------------------------------------
 def observer_kind(x):
   k = D.kind_of(x)
@@ -632,6 +705,40 @@ class Oracle9:
             elif want != have:
               self.hit('C09/payload-incomplete/%s/keys' % name, 'the receiver at %r was told about keys %s of the container at %r; the keys that changed are %s' % (
                   str(me.sym_path), sorted(have), str(c.sym_path), sorted(want)), n)
+    # --- every reported location names the changed value: followed from the receiver, the relative path of an update leads to its new value
+    # (single writes; a batch may move what it wrote, a list deletion leaves its slot to the next element; a list that still held
+    #  MISSING_VALUE placeholders before the call drops them while it is notified, which shifts positions -- counted, not judged)
+    if enabled and not skip and ok and tag != QUERY and not (tag in (D.REBIND, REBINDX) and len(op[2]) > 1):
+      ph_ = lambda v: (not D.is_sym(v)) and P.MISSING_VALUE == v
+      had_placeholders = any(isinstance(x, list) and any(ph_(v) for _, v in kids) for x, kids in before['kids'].values())
+      if had_placeholders and log:
+        self.stats['location_clause_skipped_for_placeholders'] = self.stats.get('location_clause_skipped_for_placeholders', 0) + 1
+      for me, _, _, raw in ([] if had_placeholders else log):
+        if raw is None or id(me) not in pos_of:
+          continue
+        for rel, u in raw.items():
+          if isinstance(u.target, list) and ph_(u.new_value):
+            continue
+          x, absent = me, False
+          for k in rel.keys:
+            if isinstance(x, list):
+              if isinstance(k, int) and 0 <= k < len(x):
+                x = list.__getitem__(x, k)
+              else:
+                absent = True; break
+            elif D.is_sym(x) and x.sym_hasattr(k):
+              x = x.sym_getattr(k)
+            else:
+              absent = True; break
+          self.stats['locations_followed'] = self.stats.get('locations_followed', 0) + 1
+          good = ph_(u.new_value) if absent else (x is u.new_value or (ph_(x) and ph_(u.new_value)))
+          if not good:
+            self.hit('C09/payload-location/%s/-' % name, 'the receiver at %r was told that %r changed; followed from the receiver, that location %s, not the new value of the update' % (
+                str(me.sym_path), str(rel), 'does not exist' if absent else 'holds another value'), n)
+    # --- after ANY step: every node reports its true parent and the path of where it is stored (the walk of C01)
+    if not isinstance(info.get('exception'), D.Hang):
+      for clause, detail in C01.check_forest(impl)[:1]:
+        self.hit('C09/path-integrity/%s/%s' % (clause, name), 'after %s: %s' % (name, detail), n)
     # --- freshness: after ANY step (also refused / failed / silent ones)
     if isinstance(info.get('exception'), D.Hang):
       return
@@ -1310,6 +1417,7 @@ def run(ctx):
   fixed = [('corpus:' + name, [quirks, c[1], c[2]]) for name, c in CORPUS9.items()]
   fixed += [(name, [quirks, c[1], c[2]]) for name, c in sweep_cases(ctx.scale(1, 3))]
   fixed += [(name, [quirks, c[1], c[2]]) for name, c in batch_sweep_cases(ctx.scale(4, 1))]
+  fixed += [(name, [quirks, c[1], c[2]]) for name, c in reseat_then_write_cases(full=ctx.scale(0, 1) == 1)]
   n = ctx.scale(600, 30000)
   plan = [('random', None, 0.5, 0.25), ('mutators', D.MUTATING, 0.3, 0.25),
           ('batches', {D.REBIND, D.DUPDATE, D.LEXTEND, D.LIMUL, D.LCLEAR, D.LSORT, D.LREVERSE, D.DCLEAR, D.DPOPITEM}, 0.2, 0.1)]
@@ -1415,6 +1523,7 @@ def run(ctx):
   ctx.extra['corpus_cases'] = len(CORPUS9)
   ctx.extra['sweep_cases'] = sum(1 for k in kinds if k.startswith('sweep'))
   ctx.extra['batch_sweep_cases'] = sum(1 for k in kinds if k.startswith('batch'))
+  ctx.extra['reseat_then_write_cases'] = sum(1 for k in kinds if k.startswith('reseat'))
   # violation search when something is broken and the oracles have not hit yet: more histories biased to the operations that disagree
   if ctx.is_broken() and not ctx.hits:
     ops = set()
